@@ -353,10 +353,10 @@ func ReleaseAST(ast *AST) {
 	// Reset slice but keep capacity
 	ast.Statements = ast.Statements[:0]
 
-	// Reset comments but keep capacity
-	if cap(ast.Comments) > 0 {
-		ast.Comments = ast.Comments[:0]
-	}
+	// Drop the comments together with their array: it may be one the caller
+	// assigned and still holds, and the next user of the container must not
+	// append into it
+	ast.Comments = nil
 
 	// Return to pool
 	astPool.Put(ast)
